@@ -183,7 +183,10 @@ async def worker_serve(
 
             await lifespan.wait_for_shutdown()
             lifespan_task.cancel()
-            await lifespan_task
+            try:
+                await lifespan_task
+            except asyncio.CancelledError:
+                pass  # The app was still waiting for messages
 
 
 def asyncio_worker(
